@@ -118,7 +118,7 @@ def main():
 
     # ---- TLC judges
     case_of = lambda ev: symcamp.payload_of(ev)
-    vf.pmap(lambda sh: c.validate("SymtabTrace.tla", "SymtabTrace.cfg", sh, case_of=case_of), symcamp.shards(events, 400), jobs=4)
+    vf.pmap(lambda sh: c.validate("SymtabTrace.tla", "SymtabTrace.cfg", sh, case_of=case_of, env=symcamp.TLC_ENV), symcamp.shards(events, 400), jobs=3)
 
     nontrivial = set()
     kinds = {}
